@@ -823,7 +823,8 @@ def _objective_check(ctx, key, monitor, C, d, x, eps, rtol, extra_candidates=(),
 
 
 def _tau(nC, nx, nd, rtol=GRAD_RTOL):
-    return rtol * (nC * nC * nx + nC * nd)
+    # (nC * nx first: nC * nC may underflow to 0 while nx is huge, and 0 * inf-like products must not produce NaN)
+    return rtol * (nC * (nC * nx) + nC * nd)
 
 
 def _tik_alpha(case, W):
